@@ -199,6 +199,103 @@ def h_transfer(eng, ff):
     eng.derived["collision"] = (other_name == "L1") or (lig_names[1] == "O")
 
 
+# ---------------------------------------------------------------------------
+# K4: the whole real MOL2 path (read -> formal charges -> PEOE) on the repository's molecules with the atom
+# records listed in another order (bonds renumbered): same total, same values per atom up to exchanges between
+# atoms of the same type with the same neighbourhood
+# ---------------------------------------------------------------------------
+
+ORDERS = ["reversed", "rotated", "by-type", "by-type-descending", "hydrogens-first", "odd-even"]
+
+
+def _permute_mol2(text, order):
+    lines = text.splitlines()
+    ia = next(i for i, ln in enumerate(lines) if "@<TRIPOS>ATOM" in ln)
+    ib = next(i for i, ln in enumerate(lines) if "@<TRIPOS>BOND" in ln)
+    ie = next((i for i, ln in enumerate(lines) if i > ib and ln.startswith("@<TRIPOS>")), len(lines))
+    atoms = [ln.split() for ln in lines[ia + 1 : ib] if ln.split()]
+    bonds = [ln.split() for ln in lines[ib + 1 : ie] if ln.split()]
+    idx = list(range(len(atoms)))
+    if order == "reversed":
+        idx.reverse()
+    elif order == "rotated":
+        idx = idx[len(idx) // 3 :] + idx[: len(idx) // 3]
+    elif order == "by-type":
+        idx.sort(key=lambda i: (atoms[i][5], i))
+    elif order == "by-type-descending":
+        idx.sort(key=lambda i: (atoms[i][5], -i), reverse=True)
+    elif order == "hydrogens-first":
+        idx.sort(key=lambda i: (atoms[i][5] != "H", i))
+    elif order == "odd-even":
+        idx = idx[1::2] + idx[0::2]
+    new_id = {atoms[old][0]: str(k + 1) for k, old in enumerate(idx)}
+    out = lines[: ia + 1]
+    for k, old in enumerate(idx):
+        w = list(atoms[old])
+        w[0] = str(k + 1)
+        out.append(" ".join(w))
+    out.append(lines[ib])
+    nb = sorted(([new_id[b[1]], new_id[b[2]], b[3]] for b in bonds), key=lambda b: (int(b[0]), int(b[1])))
+    for k, b in enumerate(nb):
+        out.append(f"{k + 1} {b[0]} {b[1]} {b[2]}")
+    out += lines[ie:]
+    return "\n".join(out) + "\n"
+
+
+def h_order(eng, molecule):
+    import io as _io
+
+    from pdb2pqr.ligand.mol2 import Mol2Molecule
+
+    from . import fixtures
+
+    from symx.run import REPO
+
+    text = open(f"{REPO}/tests/data/{molecule}.mol2").read()
+    order = ORDERS[eng.choice("order", len(ORDERS))]
+
+    def run(t):
+        lig = Mol2Molecule()
+        lig.read(_io.StringIO(t))
+        lig.assign_parameters()
+        return {a.name: (a.type, sorted(b.type for b in a.bonded_atoms), round(a.formal_charge, 6), round(a.charge, 4)) for a in lig.atoms.values()}
+
+    base, perm = run(text), run(_permute_mol2(text, order))
+    eng.check(set(base) == set(perm), "same-atoms")
+    tb, tp = sum(v[3] for v in base.values()), sum(v[3] for v in perm.values())
+    eng.check(abs(tb - tp) < 5e-3, "total-charge-independent-of-atom-order", note=f"{molecule} listed {order}: total charge {tp:.3f} instead of {tb:.3f}")
+    fb, fp = sum(v[2] for v in base.values()), sum(v[2] for v in perm.values())
+    eng.check(abs(fb - fp) < 1e-6, "formal-charges-independent-of-atom-order", note=f"{molecule} listed {order}: sum of formal charges {fp} instead of {fb}")
+    # values may move only between atoms of the same type with the same neighbour types
+    cls = lambda d: sorted((v[0], tuple(v[1]), v[3]) for v in d.values())
+    diff = [x for x, y in zip(cls(base), cls(perm)) if x[:2] != y[:2] or abs(x[2] - y[2]) > 2e-3]
+    eng.check(not diff, "charges-move-only-between-equivalent-atoms", note=f"{molecule} listed {order}: {diff[:3]}")
+
+
+def h_ligand_records(eng):
+    """every ligand HETATM record reaches the model: whatever alternate-location flag its records carry (a partially
+    occupied ligand is often labelled B or C against solvent labelled A), atoms with distinct names are all kept"""
+    import io as _io
+
+    from pdb2pqr import biomolecule as biomol
+    from pdb2pqr import pdb
+
+    from . import fixtures
+
+    lines = [ln for ln in fixtures.peptide_lines(["ALA", "GLY"]) if not ln.startswith("END")]
+    alts = [" ", "A", "B", "C"]
+    names = ["C1", "O1", "O2"]
+    chosen = [alts[eng.choice(f"altloc_{n}", len(alts))] for n in names]
+    for k, (n, alt) in enumerate(zip(names, chosen)):
+        lines.append(fixtures.atom_line(500 + k, n, "LIG", "L", 40, 10.0 + 1.3 * k, 9.0, 2.0, altloc=alt, record="HETATM"))
+    lines.append(fixtures.atom_line(600, "O", "HOH", "W", 50, 11.0, 12.0, 2.0, altloc="A", record="HETATM"))
+    records, _ = pdb.read_pdb(_io.StringIO("\n".join(lines + ["END"]) + "\n"))
+    bm = biomol.Biomolecule(records, fixtures.definition())
+    lig = [r for r in bm.residues if r.name == "LIG"]
+    got = sorted(a.name for r in lig for a in r.atoms)
+    eng.check(got == sorted(names), "every-ligand-record-reaches-the-model", note=f"ligand records with alternate-location flags {chosen}: the model's ligand residue holds {got}")
+
+
 def obligations(tier):
     obs = []
     graphs = ["pair", "pair-same-type", "chain3", "triangle", "isolated"] if tier == "quick" else list(GRAPHS)
@@ -210,6 +307,9 @@ def obligations(tier):
             for order in ("identity", "reversed") if n > 1 else ("identity",):
                 obs.append(Obligation(f"peoe-{g}-cycles{ncycles}-{order}", h_peoe, dict(graph=g, ncycles=ncycles, order=order), group="peoe", time_cap=1500, max_paths=100000))
     obs.append(Obligation("peoe-pair-cycles6-identity", h_peoe, dict(graph="pair", ncycles=6, order="identity"), group="peoe", time_cap=1500, max_paths=100000))
+    for mol in ("adp", "acetate", "ethanol") if tier == "quick" else ("adp", "acetate", "ethanol", "acetonitrile", "acetylcholine", "fatty-acid", "glycerol", "pyrrole", "tetramethylammonium", "1HPX-ligand", "1QBS-ligand", "1US0-ligand", "crown-ether", "cyclohexane", "naphthalene", "anthracene"):
+        obs.append(Obligation(f"order-{mol}", h_order, dict(molecule=mol), group="order", time_cap=1200))
+    obs.append(Obligation("ligand-records-altloc", h_ligand_records, {}, group="ligand-records", time_cap=600))
     obs.append(Obligation("radii-table", table_radii, {}, kind="table", group="radii"))
     for ff in (0, 1):
         obs.append(Obligation(f"transfer-ff{ff}", h_transfer, dict(ff=ff), group="transfer", time_cap=1200))
